@@ -89,7 +89,7 @@ CLAIMED = {
              "winner is a population member, was drawn for its tournament and is at least as fit as every participant (participants observed per "
              "choice call); each lexicase winner is an available candidate, never returned more often than present, and survives an independent "
              "lexicase filter for at least one of ALL case orders over the candidates still available. Path trees exhausted. Bounds: population 2-3, "
-             "tournament size 1..population+1, 1-2 (thorough 3) cases, tables of 2-3 values.",
+             "tournament size 1..population+1, 1-2 cases, tables of 2-3 values.",
         design_ref="DESIGN.md section 4 (C17)",
     ),
     "C15": dict(
